@@ -9,6 +9,7 @@ Requests:
   uint_value <strict> <nbits> obj        safe_int obj | safe_float obj | safe_rect_list obj
   pagetree <strict> <catalog dict>       get_widths <strict> <array>
   xref <strict> <start> <k> (<pos> <X|obj> <X|obj>)*k
+  numtree <strict> obj                   NumberTree(obj)._parse(): items in order ; visited set in insertion order (round 6c)
   ra_calls obj                           getobj calls of resolve_all (non-STRICT) on the current graph (round 6)
   calls obj                              getobj calls of resolve1 on the current graph, and the proved bound (round 6)
   sdec <k> <namehex>*k <hex>             PDFStream.decode with /Filter [names], no DecodeParms (round 6)
@@ -18,6 +19,7 @@ Replies:  V …  |  E <PythonClassName>  |  E fuel  |  bad-op
 -/
 import PdfVerif.Model.Lenient
 import PdfVerif.Model.Filters
+import PdfVerif.Model.LenientTree
 
 open PdfVerif PdfVerif.Lenient
 
@@ -201,6 +203,15 @@ def step (g : Graph) (line : String) : Graph × String :=
   | ["dec", name, h] =>
     match decoder name, bytesOfHex h with
     | some f, some d => (g, decReply (f d))
+    | _, _ => (g, "bad-op")
+  | "numtree" :: s :: rest =>
+    match strictOf s, parseObj rest with
+    | some s, some (x, []) =>
+      (g, match numTree s g x with
+          | .ok (its, v) => "V " ++ toString its.length ++
+              String.join (its.map (fun kv => " | " ++ showObj kv.1 ++ " " ++ showObj kv.2)) ++ " ; " ++
+              " ".intercalate (v.reverse.map toString)
+          | .error e => showErr e)
     | _, _ => (g, "bad-op")
   | "ra_calls" :: rest =>
     match parseObj rest with
